@@ -9,7 +9,7 @@
 From Coq Require Import List NArith ZArith Bool.
 From Gemato Require Import Py.PyStr Py.PyPath Gen.Tables Gen.Profile Model.Entry Model.Text Model.OpenPGP Model.Hash
   Model.FS Model.Verify Model.Loader Model.Update.
-From Gemato Require Import Proofs.SaveFrame.
+From Gemato Require Import Proofs.SaveFrame Proofs.Frame.
 Import ListNotations.
 Open Scope N_scope.
 
@@ -49,3 +49,9 @@ Proof.
   - rewrite C13_policy_old_ebuild. destruct (existsb _ tags); [reflexivity|]. cbn. rewrite andb_false_r. reflexivity.
 Qed.
 Print Assumptions C13_top_level_never.
+
+(* recompression renames by writing the new name and unlinking the old one: afterwards the old name is gone
+   (one file per logical Manifest; that the new one is written first is in the text of save_manifests) *)
+Theorem C13_old_name_removed : forall w path w', unlink_file w path = Ok w' -> forall j, ~ names w' path j.
+Proof. exact unlink_removes_name. Qed.
+Print Assumptions C13_old_name_removed.
